@@ -134,3 +134,12 @@ add('C06', 'Hypothesis generated mechanisms (sites, species, reactions, run cond
     'stoichiometry. Exploration only.',
     'Trusted: the model getters for A/Ea (C09), the reference parsers of vf/p06.py; reactions are site-conserving (no gas-only reactants with surface/bulk products).',
     'DESIGN.md 3/C06')
+add('C07', 'Hypothesis generated models / reactor option sets / phase-edit histories + oracles: yaml.safe_load and ast + recording CTI stubs (well-formedness), content comparison against the objects, model-based species lists',
+    'Three generators: (1) histories of species additions and removals on 1-4 coexisting phase objects (some default-constructed) checked against a dict model after every step; (2) reactor '
+    'option sets in which every dimensional and plain option is independently omitted or given as Python / NumPy number or "value unit" string, with units given or None, whose loaded YAML '
+    'must contain exactly the supplied options with value and unit; (3) whole models (gas, optional bulk, 1-2 interfaces, NASA-7/NASA-9/Shomate species with occupancies, reactions with '
+    'explicit TS / BEP / none and user, automatic or mixed ids, BEPs, lateral interactions, random unit system, T, P, Motz-Wise) whose thermo YAML must load and whose CTI must parse and '
+    'execute against recording stubs of the CTI directives, both carrying each species, reaction (unique id, equation, A/b/Ea in the requested units), phase (species, elements, site '
+    'density, decoded reaction / interaction ranges), BEP and interaction exactly as the objects say. Exploration only.',
+    'Trusted: PyYAML, the recording stubs (argument counts of NASA/NASA9/Shomate), model getters for rate parameters (C09); Cantera itself is not available offline.',
+    'DESIGN.md 3/C07')
